@@ -17,7 +17,11 @@
     * histories `List POp`: `get`, `set`, `synth` and `snapshot` (= continue on
       `restore (snapshot pers s)`) in any order.
   Programs `P : Nat → Body` are arbitrary well-formed resumption programs (dynamic dependencies),
-  durabilities are arbitrary.  `Inv` is the engine invariant of Proofs/CoreInv.lean.
+  durabilities are arbitrary.  SCOPE: bodies read inputs and functions only.  UNTRACKED reads
+  (`report_untracked_read`) are outside this model, and for them the property is FALSE of salsa:
+  flattening drops the origin kind `DerivedUntracked` of the memos it walks through (known finding
+  kf6, corpus/C26/kf6-untracked-below-nonpersisted.ops.txt); that fragment is decided by the oracle
+  family `vh persist gen --cells` only.  `Inv` is the engine invariant of Proofs/CoreInv.lean.
 
   What is proved:
     * THE FULL PROPERTY, for ARBITRARY `pers` (flattening through non-persisted functions
